@@ -20,6 +20,14 @@ def real_canon(expr, toks):
     """parse with the real parser -> (n-ary normal form, leaf texts); raises SyntaxError as the parser does"""
     import ahb
     from ahbicht.expressions.condition_expression_parser import parse_condition_expression_to_tree
+    if hash(expr) % 4 == 0:
+        # fault history: malformed near misses of the same string (a key split by a blank, a stray bracket, full-width characters) were refused before
+        from common import near_misses
+        for nm in near_misses(expr):
+            try:
+                parse_condition_expression_to_tree(nm)
+            except BaseException:  # noqa: BLE001 - not judged here (C02 judges what is refused)
+                pass
     t = parse_condition_expression_to_tree(expr)
     return CP.canon(ahb.cond_tree_binary(t), CP.bracket_spans(toks))
 
